@@ -322,6 +322,8 @@ def random_dependent(m):
             d = any(i in dep for i in n.input if i)
             if n.op_type in _RANDOM_OPS and n.domain in ("", "ai.onnx"):
                 d = True
+            if n.op_type == "Dropout" and n.domain in ("", "ai.onnx") and len(n.input) >= 3 and n.input[2] and cst.get(n.input[2]) is not False:
+                d = True   # training mode not known to be off (over-approximation, used for the RESULT)
             if fn_random.get((n.domain, n.op_type)):
                 d = True
             subs = []
@@ -351,10 +353,31 @@ _VALUE_PRESERVING = {"Identity", "Neg", "Add", "Sub", "Reshape", "Transpose", "U
 def random_strong(m):
     """Under-approximation for the ORIGINAL: main-graph values every element of which is (an injective image of) a random
     draw — outputs of Random* nodes carried through value-preserving ops only."""
+    from onnx import numpy_helper as nph
+
     dep = set()
+    cv = {t.name: t for t in m.graph.initializer}
+    graph_inputs = {i.name for i in m.graph.input}
+    for n in m.graph.node:
+        if n.op_type == "Constant" and n.attribute and n.attribute[0].HasField("t"):
+            cv[n.output[0]] = n.attribute[0].t
+
+    def const(name):
+        return nph.to_array(cv[name]) if name in cv and name not in graph_inputs else None
+
     for n in m.graph.node:
         if n.op_type in _RANDOM_OPS and n.domain in ("", "ai.onnx"):
             dep.update(n.output)
+        elif n.op_type == "Dropout" and n.domain in ("", "ai.onnx") and len(n.input) >= 3:
+            # training-mode Dropout with a constant ratio in (0,1): the mask is a raw draw; the data output is an injective
+            # image of it when the data is a constant without zeros
+            tm, ratio = const(n.input[2]), const(n.input[1])
+            if tm is not None and tm.size == 1 and bool(tm.reshape(-1)[0]) and ratio is not None and ratio.size == 1 and 0 < float(ratio.reshape(-1)[0]) < 1:
+                if len(n.output) > 1 and n.output[1]:
+                    dep.add(n.output[1])
+                x = const(n.input[0])
+                if x is not None and x.size and bool((x != 0).all()):
+                    dep.add(n.output[0])
         elif n.op_type in _VALUE_PRESERVING and n.domain in ("", "ai.onnx") and n.input and n.input[0] in dep:
             dep.update(o for o in n.output if o)
     return dep
